@@ -51,6 +51,17 @@ INT_POOL = [0, 1, -1, 42, 2147483647, -2147483648, 2147483648, -2147483649, 9223
 STR_POOL = ["", "a", "0", "héllo wörld", "日本語", "a b", "Ok", "x:y", "None"]
 SAFE_STR = [s for s in STR_POOL if s]
 VNAMES = ["A", "B", "C", "D", "F"]
+# variant-name sets with relations between the names (proper prefix / suffix / infix, case variants, equal length, names of the
+# built-in Option/Result variants inside user enums, one-letter names, digits, underscores): the arm search must compare
+# whole names, byte for byte
+NAME_SETS = [
+    ["Key", "KeyUp", "KeyRepeat"], ["A", "AB", "ABC"], ["Up", "KeyUp", "P"], ["Red", "red", "RED"], ["Ok", "Okay", "Err"],
+    ["Some", "None", "Something"], ["Err", "Error", "Er"], ["X", "XX", "x"], ["V1", "V10", "V100"], ["Item", "_Item", "Item_"],
+    ["ab", "ba", "aba"], ["Left", "Right", "Light"], ["None", "Non", "NoneOf"], ["Nil", "Null", "Nul"],
+    ["Ok", "Err", "Some", "None"], ["E", "EE", "Ee"], ["Quit", "Qui", "uit", "Q"], ["aB", "Ab", "AB", "ab"],
+]
+# user enum names around the "starts with Result/Option" rule of handle_enum_access_return / evaluate_error_propagation
+TYPE_NAMES = ["E", "Shape", "Outcome", "Optional", "Results", "MyResult", "Opt", "Res", "result", "OptionX", "ResultOf", "T1"]
 
 
 def hx(s):
@@ -112,8 +123,48 @@ def line_a(c):
     arms = []
     for a in c["arms"]:
         arms.append("w" if a[0] == "w" else "v:%s:%s" % (hx(a[1]), a[2]))
-    return "\t".join(["A", "1" if is_builtin(t) else "0", hx(vs[c["val"][0]][0]), pl_ser(c["val"][1]), c["src"],
+    return "\t".join(["A", hx(type_name(t)), hx(vs[c["val"][0]][0]), pl_ser(c["val"][1]), c["src"],
                       ",".join(steps) or "-", c["final"], ",".join(arms) or "-"])
+
+
+def kind_in(t, vname):
+    """payload kind (int / long / string / none) the variant `vname` carries in type t; None if t has no such variant"""
+    for n, k in t["variants"]:
+        if n == vname:
+            return t.get("targ", k) if (t["kind"] == "gen" and k != "none") else k
+    return None
+
+
+def bind_name(bn, kind, i, suffix=""):
+    """Binding-name schemes. Names are shared between arms / matches / functions only when the payload kinds agree
+    (known finding C13-binding-name-reuse: int then string under one name prints an address, string then int crashes) and
+    never equal a variable of the program (C13-binding-overwrites-variable)."""
+    k = "s" if kind == "string" else ("z" if kind in (None, "none") else "i")
+    if bn == 1:
+        return "c" + k + suffix
+    if bn == 2:
+        return "_" + k + suffix
+    if bn == 3:
+        return {"i": "p", "s": "pp", "z": "ppp"}[k] + suffix
+    return "b%d%s%s" % (i, k if suffix else "", suffix)
+
+
+def arm_text(a, i, kind, bn, body, block_fmt, expr_fmt, extra="", suffix=""):
+    """One arm. block_fmt: statement with one %s for ', <binding>' or ''; expr_fmt: helper call with %s for the helper
+    letter (w/s/n) and %s for ', <binding>' or ''. body 0: block; 1: single expression (trailing semicolon on even arms)."""
+    if a[0] == "w":
+        pat, b = "_", None
+    elif a[2] == "n":
+        pat, b = a[1], None
+    elif a[2] == "u":
+        pat, b = "%s(_)" % a[1], None
+    else:
+        b = bind_name(bn, kind, i, suffix)
+        pat = "%s(%s)" % (a[1], b)
+    if body and not extra:
+        letter = "n" if b is None else ("s" if kind == "string" else "w")
+        return "%s => %s%s" % (pat, expr_fmt % (letter, "" if b is None else ", " + b), ";" if i % 2 == 0 else "")
+    return "%s => { %s%s }" % (pat, block_fmt % ("" if b is None else ", " + b), extra)
 
 
 def cb_a(c):
@@ -134,16 +185,15 @@ def cb_a(c):
     out.append("%s idf(%s x) { return x; }" % (tn, tn))
     out.append("%s mk() { return %s; }" % (tn, cons(tn, vs[vi][0], pay)))
     out.append("%s mkv() { %s t = %s; return t; }" % (tn, tn, cons(tn, vs[vi][0], pay)))
+    bn, body = c.get("bn", 0), c.get("body", 0)
+    if body:
+        out.append('void shw(int i, long x) { println("arm", i, x); }')
+        out.append('void shs(int i, string x) { println("arm", i, x); }')
+        out.append('void shn(int i) { println("arm", i); }')
     arms = []
     for i, a in enumerate(c["arms"]):
-        if a[0] == "w":
-            arms.append('_ => { println("arm %d"); }' % i)
-        elif a[2] == "n":
-            arms.append('%s => { println("arm %d"); }' % (a[1], i))
-        elif a[2] == "u":
-            arms.append('%s(_) => { println("arm %d"); }' % (a[1], i))
-        else:
-            arms.append('%s(b%d) => { println("arm %d", b%d); }' % (a[1], i, i, i))
+        arms.append(arm_text(a, i, kind_in(t, a[1]) if a[0] == "v" else None, bn, body,
+                             'println("arm %d"%s);' % (i, "%s"), "sh%s(%d%s)" % ("%s", i, "%s")))
     funcs, cur, n, hn = [], [], 0, 0
     hdr = "void main() {"
     if not direct:
@@ -188,6 +238,125 @@ def cb_a(c):
     funcs.append([hdr] + ["    " + x for x in cur] + ["}"])
     for fn in reversed(funcs):
         out += fn
+    return "\n".join(out) + "\n"
+
+
+# ------------------------------------------------------------------ family M
+# case: {"fam":"M","types":[type],"fns":[{"style","ty","ty2","arms","nest":None|[i0,arms2]}],
+#        "calls":[{"fn","val":[vi,payload],"val2":[vi,payload]|None,"direct":bool}],"bn":int}
+# style: inline | void | ret | expr | loop
+def arms_ser(arms):
+    return ",".join("w" if a[0] == "w" else "v:%s:%s" % (hx(a[1]), a[2]) for a in arms) or "-"
+
+
+def m_nest(f):
+    return None if f["style"] == "expr" else f.get("nest")
+
+
+def line_m(c):
+    fns = []
+    for f in c["fns"]:
+        n = f.get("nest")
+        fns.append("%s|%s|%s" % (f["style"], arms_ser(f["arms"]), "-" if not n else "%d/%s" % (n[0], arms_ser(n[1]))))
+    calls = []
+    for k in c["calls"]:
+        f = c["fns"][k["fn"]]
+        t1 = c["types"][f["ty"]]
+        v1 = "%s:%s" % (hx(t1["variants"][k["val"][0]][0]), pl_ser(k["val"][1]))
+        if k.get("val2"):
+            t2 = c["types"][f["ty2"]]
+            v2 = "%s:%s" % (hx(t2["variants"][k["val2"][0]][0]), pl_ser(k["val2"][1]))
+        else:
+            v2 = ":N"
+        calls.append("%d|%s|%s|%d" % (k["fn"], v1, v2, 1 if (k.get("direct") and f["style"] != "inline") else 0))
+    return "\t".join(["M", ";".join(fns) or "-", ";".join(calls) or "-"])
+
+
+def enum_decl(t):
+    if t["kind"] == "user":
+        return ["enum %s {" % t["name"], ",\n".join("    %s%s" % (n, "" if k == "none" else "(%s)" % k) for n, k in t["variants"]), "};"]
+    if t["kind"] == "gen":
+        return ["enum %s<T> {" % t["name"], ",\n".join("    %s%s" % (n, "" if k == "none" else "(T)") for n, k in t["variants"]), "};"]
+    return []
+
+
+def cb_m(c):
+    bn = c.get("bn", 0)
+    out = []
+    seen = set()
+    for t in c["types"]:
+        if t["kind"] in ("user", "gen") and t["name"] not in seen:
+            seen.add(t["name"])
+            out += enum_decl(t)
+    if any(f["style"] == "expr" for f in c["fns"]):
+        out.append('void shw(int j, int i, long x) { println("m", j, "arm", i, x); }')
+        out.append('void shs(int j, int i, string x) { println("m", j, "arm", i, x); }')
+        out.append('void shn(int j, int i) { println("m", j, "arm", i); }')
+
+    def match_lines(j, f, scr, scr2):
+        t1 = c["types"][f["ty"]]
+        nest = m_nest(f)
+        lines = ["match (%s) {" % scr]
+        for i, a in enumerate(f["arms"]):
+            extra = ""
+            if nest and nest[0] == i:
+                t2 = c["types"][f["ty2"]]
+                inner = " ".join(arm_text(a2, i2, kind_in(t2, a2[1]) if a2[0] == "v" else None, bn, 0,
+                                          'println("n", %d, "arm", %d%s);' % (j, i2, "%s"), "", suffix="n%d" % j if bn == 0 else "n")
+                                 for i2, a2 in enumerate(nest[1]))
+                extra = " match (%s) { %s }" % (scr2, inner)
+            if f["style"] == "ret":
+                extra += " return %d;" % i
+            lines.append("    " + arm_text(a, i, kind_in(t1, a[1]) if a[0] == "v" else None, bn, 1 if f["style"] == "expr" else 0,
+                                           'println("m", %d, "arm", %d%s);' % (j, i, "%s"), "sh%s(%d, %d%s)" % ("%s", j, i, "%s"),
+                                           extra=extra, suffix="f%d" % j if bn == 0 else ""))
+        lines.append("}")
+        return lines
+
+    for j, f in enumerate(c["fns"]):
+        if f["style"] == "inline":
+            continue
+        params = "%s ev" % type_name(c["types"][f["ty"]])
+        if m_nest(f):
+            params += ", %s ev2" % type_name(c["types"][f["ty2"]])
+        out.append("%s h%d(%s) {" % ("int" if f["style"] == "ret" else "void", j, params))
+        ml = match_lines(j, f, "ev", "ev2")
+        if f["style"] == "loop":
+            out.append("    for (int k = 0; k < 2; k = k + 1) {")
+            out += ["        " + l for l in ml]
+            out.append("    }")
+        else:
+            out += ["    " + l for l in ml]
+        if f["style"] == "ret":
+            out += ['    println("fell", %d);' % j, "    return 99;"]
+        else:
+            out.append('    println("end", %d);' % j)
+        out.append("}")
+    out.append("void main() {")
+    for n, k in enumerate(c["calls"]):
+        j = k["fn"]
+        f = c["fns"][j]
+        t1 = c["types"][f["ty"]]
+        direct = k.get("direct") and f["style"] != "inline"
+        e1 = cons(type_name(t1), t1["variants"][k["val"][0]][0], k["val"][1])
+        if not direct:
+            out.append("    %s a%d = %s;" % (type_name(t1), n, e1))
+        args = [e1 if direct else "a%d" % n]
+        if m_nest(f):
+            t2 = c["types"][f["ty2"]]
+            v2 = k.get("val2") or [0, ["none"]]
+            out.append("    %s c%d = %s;" % (type_name(t2), n, cons(type_name(t2), t2["variants"][v2[0]][0], v2[1])))
+            args.append("c%d" % n)
+        if f["style"] == "inline":
+            out += ["    " + l for l in match_lines(j, f, args[0], args[1] if len(args) > 1 else "")]
+            out.append('    println("end", %d);' % j)
+        elif f["style"] == "ret":
+            out.append("    int r%d = h%d(%s);" % (n, j, ", ".join(args)))
+            out.append('    println("ret", %d, r%d);' % (j, n))
+        else:
+            out.append("    h%d(%s);" % (j, ", ".join(args)))
+    out.append('    println("after");')
+    out.append("}")
     return "\n".join(out) + "\n"
 
 
@@ -384,11 +553,11 @@ def py_eval(e, a, b):
 
 # ------------------------------------------------------------------ running
 def to_line(c):
-    return {"A": line_a, "Q": line_q, "T": line_t}[c["fam"]](c)
+    return {"A": line_a, "Q": line_q, "T": line_t, "M": line_m}[c["fam"]](c)
 
 
 def to_cb(c):
-    return {"A": cb_a, "Q": cb_q, "T": cb_t}[c["fam"]](c)
+    return {"A": cb_a, "Q": cb_q, "T": cb_t, "M": cb_m}[c["fam"]](c)
 
 
 def run_models(cases):
@@ -514,6 +683,16 @@ def label(c, m):
             labs.append("C13-decl-from-call-drops-string")
         if any(v[1][0] == "none" for v in vals):
             labs.append("C13-payloadless-variant-lost")
+    elif c["fam"] == "M":
+        for k in c["calls"]:
+            f = c["fns"][k["fn"]]
+            vals = [k["val"]] + ([k["val2"]] if (m_nest(f) and k.get("val2")) else [])
+            if k.get("direct") and f["style"] != "inline":
+                labs.append("C13-constructor-argument-lost")
+            if f["style"] != "inline" and any(v[1] == ["none"] for v in vals):
+                labs.append("C13-payloadless-variant-lost")
+            if any(v[1] == ["str", ""] for v in vals):
+                labs.append("C13-empty-string-payload")
     elif c["fam"] == "Q":
         if c["ok"][0] == "str":
             labs.append("C13-qmark-string-payload")
@@ -610,12 +789,224 @@ def gen_transports(maxlen):
                                    "arms": full_arms(t)}
 
 
+def named_type(names, kinds, name="E", generic=None):
+    """user enum with the given variant names; generic = type argument (then every payload is T)"""
+    if generic:
+        return {"kind": "gen", "name": name, "targ": generic, "variants": [[n, "none" if k == "none" else "T"] for n, k in zip(names, kinds)]}
+    return {"kind": "user", "name": name, "variants": [[n, k] for n, k in zip(names, kinds)]}
+
+
+def sample_payload(t, vi, salt=0):
+    k = kind_in(t, t["variants"][vi][0])
+    if k == "none":
+        return ["none"]
+    if k == "string":
+        return ["str", SAFE_STR[(vi + salt) % len(SAFE_STR)]]
+    pool = INT_POOL[:6] if k == "int" else INT_POOL
+    return ["int", str(pool[(3 + vi + salt) % len(pool)])]
+
+
+def name_set_type(si, rot):
+    names = NAME_SETS[si % len(NAME_SETS)]
+    kinds = [KINDS[(rot + i) % 4] for i in range(len(names))]
+    tn = TYPE_NAMES[(si + rot) % len(TYPE_NAMES)]
+    if (si + rot) % 3 == 2 and tn[0].isupper():
+        targ = ["int", "long", "string"][(si + rot) % 3]
+        if "none" not in kinds:
+            kinds[-1] = "none"
+        return named_type(names, kinds, tn, targ)
+    return named_type(names, kinds, tn)
+
+
+def bspec(t, vn, j):
+    """binding form for an arm naming vn: named binding mostly, `V(_)` and bare `V` now and then"""
+    if kind_in(t, vn) == "none":
+        return "n"
+    return "bbbun"[j % 5]
+
+
+def gen_name_pairs(seed):
+    """(A4) every ordered pair (r, s) of related names in every name set: scrutinee variant s, the arm naming r in front of
+    the arm naming s / of `_` / alone / behind it; binding form, binding-name scheme, arm-body form, consumer and source rotate."""
+    rot = rng_for(seed, "c13-names").randrange(4)
+    n = 0
+    for si in range(len(NAME_SETS)):
+        t = name_set_type(si, rot)
+        names = [v[0] for v in t["variants"]]
+        for ri, r in enumerate(names):
+            for sidx, sname in enumerate(names):
+                if ri == sidx:
+                    continue
+                ar, as_ = ["v", r, bspec(t, r, n)], ["v", sname, bspec(t, sname, n + 1)]
+                val = [sidx, sample_payload(t, sidx, n)]
+                has = val[1] != ["none"]
+                for arms in ([ar, as_], [ar, ["w"]], [ar], [as_, ar], [["w"], ar]):
+                    n += 1
+                    src, steps, fin = [("cons", [], "var"), ("cons", [], "var"), ("cons", [["dv"]], "var"),
+                                       ("cons", [], "mkv"), ("callvar", [], "var") if val[1][0] != "str" else ("cons", [], "var"),
+                                       ("cons", [["pa"]], "var") if has else ("cons", [], "var"),
+                                       ("cons", [], "cons") if has else ("cons", [], "var"),
+                                       ("cons", [], "call") if has else ("cons", [], "var")][n % 8]
+                    yield {"fam": "A", "type": t, "val": val, "src": src, "steps": steps, "final": fin, "arms": arms,
+                           "bn": n % 4, "body": 1 if n % 3 == 0 else 0}
+        for vi in range(len(names)):          # v.variant prints the whole name
+            yield {"fam": "A", "type": t, "val": [vi, sample_payload(t, vi)], "src": "cons", "steps": [], "final": "obs", "arms": []}
+
+
+def gen_name_orders(seed, thorough):
+    """(A5) all ordered subsets of three related names as arms x wildcard at every position x every scrutinee variant, for
+    3 of the name sets per seed (quick) / all of them (thorough)."""
+    rng = rng_for(seed, "c13-name-orders")
+    rot = rng.randrange(4)
+    sets = list(range(len(NAME_SETS)))
+    if not thorough:
+        rng.shuffle(sets)
+        sets = sets[:3]
+    n = 0
+    for si in sets:
+        t = name_set_type(si, rot + 1)
+        t = dict(t, variants=t["variants"][:3])
+        names = [v[0] for v in t["variants"]]
+        for k in range(0, 4):
+            for sub in itertools.permutations(range(3), k):
+                for wpos in [None] + list(range(k + 1)):
+                    n += 1
+                    arms = [["v", names[i], bspec(t, names[i], i + k + n)] for i in sub]
+                    if wpos is not None:
+                        arms.insert(wpos, ["w"])
+                    for vi in range(3):
+                        yield {"fam": "A", "type": t, "val": [vi, sample_payload(t, vi, n)], "src": "cons", "steps": [], "final": "var",
+                               "arms": arms, "bn": n % 4, "body": 1 if n % 5 == 0 else 0}
+
+
+MSTYLES = ["void", "ret", "expr", "loop", "inline"]
+
+
+def m_calls_all(t, fi, salt=0, t2=None):
+    return [{"fn": fi, "val": [vi, sample_payload(t, vi, salt + vi)],
+             "val2": None if t2 is None else [(vi + salt) % len(t2["variants"]), sample_payload(t2, (vi + salt) % len(t2["variants"]), salt)]}
+            for vi in range(len(t["variants"]))]
+
+
+def gen_suites_names(seed):
+    """(M1) per name set: one program whose functions (one per style) hold the related names in source order and one in
+    reversed order + wildcard; every variant value is sent to every function (the same match code meets every value)."""
+    rot = rng_for(seed, "c13-m-names").randrange(4)
+    for si in range(len(NAME_SETS)):
+        t = name_set_type(si, rot + 2)
+        names = [v[0] for v in t["variants"]]
+        for variant in range(2):
+            fns, calls = [], []
+            for fi, st in enumerate(MSTYLES):
+                order = list(names) if variant == 0 else list(reversed(names))
+                order = order[fi % len(order):] + order[:fi % len(order)]
+                arms = [["v", n, bspec(t, n, fi + j)] for j, n in enumerate(order)]
+                if variant == 1:
+                    arms = arms[:-1] + [["w"]]
+                fns.append({"style": st, "ty": 0, "ty2": 0, "arms": arms, "nest": None})
+            for fi in range(len(fns)):
+                calls += m_calls_all(t, fi, si + fi)
+            # payload-less values go through parameters only in the "any" stream: keep them for the inline function here
+            calls = [k for k in calls if fns[k["fn"]]["style"] == "inline" or k["val"][1] != ["none"]]
+            yield {"fam": "M", "types": [t], "fns": fns, "calls": calls, "bn": (si + variant) % 4}
+
+
+def gen_suites_small(seed):
+    """(M2) one function, every style x nested match at no / the first / the second arm x 7 arm lists over a prefix-related
+    pair of names x both values; the nested match runs on a value of a SECOND enum that has the same variant names with
+    other payload kinds."""
+    rng = rng_for(seed, "c13-m-small")
+    pair = rng.choice([["A", "AB"], ["Key", "KeyUp"], ["Up", "KeyUp"], ["Ok", "Okay"], ["x", "X"], ["None", "Non"]])
+    a, b = pair
+    t1 = named_type([a, b], ["long", "string"], "E")
+    t2 = named_type([b, a, "Z"], ["int", "string", "none"], "F")
+    n = 0
+    for st in MSTYLES:
+        for nestpos in (None, 0, 1):
+            for arms in ([["v", a, "b"], ["v", b, "b"]], [["v", b, "b"], ["v", a, "b"]], [["v", a, "b"], ["w"]], [["w"], ["v", a, "b"]],
+                         [["v", b, "u"], ["w"]], [["v", a, "n"]], [["v", b, "b"]]):
+                if nestpos is not None and (nestpos >= len(arms) or st == "expr"):
+                    continue
+                for vi in range(2):
+                    n += 1
+                    inner = [[["v", a, "b"], ["v", b, "b"], ["w"]], [["v", b, "b"], ["v", a, "b"]], [["v", a, "u"], ["w"]]][n % 3]
+                    v2i = n % 2      # F has a payload on its first two variants only: the nested value is passed as a parameter
+                    yield {"fam": "M", "types": [t1, t2], "bn": n % 4,
+                           "fns": [{"style": st, "ty": 0, "ty2": 1, "arms": arms, "nest": None if nestpos is None else [nestpos, inner]}],
+                           "calls": [{"fn": 0, "val": [vi, sample_payload(t1, vi, n)],
+                                      "val2": None if nestpos is None else [v2i, sample_payload(t2, v2i, n)]}]}
+
+
+def gen_random_m(rng, safe):
+    ts = []
+    for _ in range(rng.randint(1, 2)):
+        if rng.random() < 0.25:
+            ts.append(rng.choice(std_types()))
+        else:
+            names = list(rng.choice(NAME_SETS))
+            rng.shuffle(names)
+            names = names[:rng.randint(2, len(names))]
+            kinds = [rng.choice(KINDS) for _ in names]
+            tn = rng.choice(TYPE_NAMES)
+            while any(t["name"] == tn for t in ts):
+                tn = rng.choice(TYPE_NAMES)
+            if rng.random() < 0.25 and tn[0].isupper():
+                ts.append(named_type(names, kinds, tn, rng.choice(["int", "long", "string"])))
+            else:
+                ts.append(named_type(names, kinds, tn))
+    allnames = sorted({v[0] for t in ts for v in t["variants"]})
+
+    def arms_for(t):
+        order = [v[0] for v in t["variants"]]
+        rng.shuffle(order)
+        arms = [["v", n, bspec(t, n, rng.randrange(5))] for n in order if rng.random() < 0.85]
+        if rng.random() < 0.3:                      # a name of the other enum / an unknown name / a duplicate
+            n = rng.choice(allnames + ["Zed"])
+            arms.insert(rng.randint(0, len(arms)), ["v", n, bspec(t, n, rng.randrange(5)) if kind_in(t, n) else "n"])
+        if rng.random() < 0.35:
+            arms.insert(rng.randint(0, len(arms)), ["w"])
+        return arms
+    fns = []
+    for _ in range(rng.randint(1, 4)):
+        ty, ty2 = rng.randrange(len(ts)), rng.randrange(len(ts))
+        arms = arms_for(ts[ty])
+        nest = [rng.randrange(len(arms)), arms_for(ts[ty2])] if arms and rng.random() < 0.3 else None
+        fns.append({"style": rng.choice(MSTYLES), "ty": ty, "ty2": ty2, "arms": arms, "nest": nest})
+    calls = []
+    for _ in range(rng.randint(1, 8)):
+        fi = rng.randrange(len(fns))
+        f = fns[fi]
+        t1, t2 = ts[f["ty"]], ts[f["ty2"]]
+        inline = f["style"] == "inline"
+
+        def val(t):
+            cand = [vi for vi in range(len(t["variants"])) if not safe or inline or kind_in(t, t["variants"][vi][0]) != "none"]
+            if not cand:
+                return None
+            vi = rng.choice(cand)
+            # no empty string here: it is bound as the integer 0 (C13-empty-string-payload, swept in family A), which would
+            # trip C13-binding-name-reuse for the shared binding names and the typed helpers of expression-bodied arms
+            return [vi, pick_payload(rng, kind_in(t, t["variants"][vi][0]), True)]
+        v1 = val(t1)
+        v2 = val(t2) if m_nest(f) else None
+        if v1 is None or (m_nest(f) and v2 is None):
+            continue
+        calls.append({"fn": fi, "val": v1, "val2": v2, "direct": (not safe) and (not inline) and rng.random() < 0.08})
+    return {"fam": "M", "types": ts, "fns": fns, "calls": calls, "bn": rng.randrange(4)}
+
+
 def gen_random_a(rng, safe):
     ts = std_types()
     if rng.random() < 0.5:
-        n = rng.randint(1, 5)
-        kinds = [rng.choice(KINDS) for _ in range(n)]
-        t = user_type(n, kinds, rng.choice(["E", "Shape", "Outcome"]))
+        if rng.random() < 0.5:
+            names = list(rng.choice(NAME_SETS))
+            rng.shuffle(names)
+            kinds = [rng.choice(KINDS) for _ in names]
+            t = named_type(names, kinds, rng.choice(TYPE_NAMES))
+        else:
+            n = rng.randint(1, 5)
+            kinds = [rng.choice(KINDS) for _ in range(n)]
+            t = user_type(n, kinds, rng.choice(TYPE_NAMES))
     else:
         t = rng.choice(ts)
     vs = t["variants"]
@@ -638,8 +1029,17 @@ def gen_random_a(rng, safe):
     if rng.random() < 0.05:
         arms.insert(rng.randint(0, len(arms)), ["v", "Zed", "n"])
     fin = rng.choice(["var", "var", "var", "call", "obs", "val", "mk", "mkv", "cons"])
-    return {"fam": "A", "type": t, "val": val(), "src": rng.choice(["cons", "cons", "call", "callvar"]), "steps": steps,
-            "final": fin, "arms": arms}
+    if rng.random() < 0.15 and arms:                # the same variant named twice: only the first arm may run
+        arms.insert(rng.randint(0, len(arms)), list(rng.choice(arms)))
+    c = {"fam": "A", "type": t, "val": val(), "src": rng.choice(["cons", "cons", "call", "callvar"]), "steps": steps,
+         "final": fin, "arms": arms, "bn": rng.randrange(4), "body": 0}
+    # expression-bodied arms hand the binding to a typed helper: only where no recorded defect turns a string payload into 0
+    # (C13-decl-from-call-drops-string, C13-empty-string-payload) - the helper call would be rejected as a type mismatch
+    vals = [c["val"]] + [st[1] for st in steps if len(st) > 1]
+    loses = any(v[1][0] == "str" for v in vals) and (c["src"] != "cons" or any(st[0] == "dc" for st in steps))
+    if rng.random() < 0.3 and not loses and not any(v[1] == ["str", ""] for v in vals):
+        c["body"] = 1
+    return c
 
 
 CTXS = ["decl", "asg", "ret", "bin", "stmt"]
@@ -743,6 +1143,8 @@ def size(c):
         return len(c["steps"]) * 3 + len(c["arms"]) + len(c["type"]["variants"])
     if c["fam"] == "Q":
         return len(c["links"]) * 2
+    if c["fam"] == "M":
+        return 3 * len(c["calls"]) + sum(len(f["arms"]) + (3 + len(f["nest"][1]) if f.get("nest") else 0) for f in c["fns"])
     return len(ex_ser(c["expr"]))
 
 
@@ -759,6 +1161,28 @@ def shrink(c, still_bad):
                 cands.append(dict(c, arms=c["arms"][:k] + c["arms"][k + 1:]))
             if c["src"] != "cons":
                 cands.append(dict(c, src="cons"))
+            if c.get("bn"):
+                cands.append(dict(c, bn=0))
+            if c.get("body"):
+                cands.append(dict(c, body=0))
+        elif c["fam"] == "M":
+            for k in range(len(c["calls"])):
+                cands.append(dict(c, calls=c["calls"][:k] + c["calls"][k + 1:]))
+            for j, f in enumerate(c["fns"]):
+                def with_fn(g, j=j):
+                    return dict(c, fns=c["fns"][:j] + [g] + c["fns"][j + 1:])
+                if f.get("nest"):
+                    cands.append(with_fn(dict(f, nest=None)))
+                    for k in range(len(f["nest"][1])):
+                        cands.append(with_fn(dict(f, nest=[f["nest"][0], f["nest"][1][:k] + f["nest"][1][k + 1:]])))
+                if f["style"] != "void":
+                    cands.append(with_fn(dict(f, style="void")))
+                for k in range(len(f["arms"])):
+                    if f.get("nest") and f["nest"][0] >= k:
+                        continue
+                    cands.append(with_fn(dict(f, arms=f["arms"][:k] + f["arms"][k + 1:])))
+            if c.get("bn"):
+                cands.append(dict(c, bn=0))
         elif c["fam"] == "Q":
             n = len(c["links"])
             for k in range(n):
@@ -857,6 +1281,15 @@ def build_cases(seed, thorough):
     add(gen_arm_orders(seed, 5 if thorough else 4), "A-arm-orders-exhaustive")
     add(gen_payload_sweep(), "A-payload-sweep")
     add(gen_transports(3 if thorough else 2), "A-transports-exhaustive")
+    add(gen_name_pairs(seed), "A-name-relations-pairs")
+    add(gen_name_orders(seed, thorough), "A-name-relations-arm-orders")
+    add(gen_suites_names(seed), "M-name-relations-suites")
+    add(gen_suites_small(seed), "M-styles-nesting-exhaustive")
+    if thorough:
+        for d in range(1, 6):
+            add(gen_name_pairs(seed * 1000 + d), "A-name-relations-pairs")
+            add(gen_suites_names(seed * 1000 + d), "M-name-relations-suites")
+            add(gen_suites_small(seed * 1000 + d), "M-styles-nesting-exhaustive")
     add(gen_chains(seed, 5 if thorough else 4), "Q-chains-exhaustive")
     add(gen_chain_payloads(), "Q-payload-sweep")
     add(gen_try_exhaustive(thorough), "T-expressions-exhaustive")
@@ -868,6 +1301,11 @@ def build_cases(seed, thorough):
         c = [gen_random_a, gen_random_q, gen_random_t][fam](rng, safe)
         cases.append(c)
         origin.append("random-%s-%s" % ("AQT"[fam], "safe" if safe else "any"))
+    for k in range(40000 if thorough else 500):
+        rng = rng_for(seed, "c13-rand-m", k)
+        safe = k % 2 == 0
+        cases.append(gen_random_m(rng, safe))
+        origin.append("random-M-%s" % ("safe" if safe else "any"))
     if not thorough:      # the non-return contexts of try (sampled in the quick tier, exhaustive in the thorough one)
         for k in range(300):
             rng = rng_for(seed, "c13-tctx", k)
@@ -912,12 +1350,15 @@ def run(rep):
     for c, o, m, i in zip(cases, origin, models, impls):
         hist[o] = hist.get(o, 0) + 1
         key = to_line(c) + "|" + (type_name(c["type"]) if c["fam"] == "A" else "")
+        if c["fam"] in ("A", "M"):
+            key += "|%d|%d" % (c.get("bn", 0), c.get("body", 0))
         first = key not in distinct
         distinct.add(key)
         conf = conforming(m)
         n_conf += conf
         n_safe += m["safe"]
-        if first and (m["mech"]["cls"] != "ok" or any(l != "after" and not l.startswith("back") and l != "g1" for l in m["mech"]["out"])):
+        if first and (m["mech"]["cls"] != "ok" or any(l != "after" and not l.startswith("back") and not l.startswith("end") and l != "g1"
+                                                      for l in m["mech"]["out"])):
             nontrivial += 1
         if m["safe"] and not conf:
             inconsistent.append((c, m, "safe_* holds but Mech differs from Spec"))
